@@ -1254,3 +1254,78 @@ ASSUMPTIONS = [
     "(it is not an argument): such invocations are not judged",
     "sampling, not enumeration: a clean batch is evidence, not proof",
 ]
+
+
+def crosscheck(seed, n=240, workers=16):
+    """Thorough tier: bound the 'CLI process boundary = in-process main(argv)'
+    stub.  Clock- and zone-independent invocations (explicit zone or --utc,
+    no now/ref-less forms) are repeated as real
+    `python -m metomi.isodatetime.main` subprocesses and compared."""
+    import os
+    import subprocess
+    import sys
+    picked = []
+    i = 0
+    while len(picked) < n and i < 50 * n:
+        trace = make_trace(("random", seed, i))
+        i += 1
+        for step in trace["steps"]:
+            if step["k"] != "inv" or step.get("argv") is None:
+                continue
+            spec = step["spec"]
+            if spec["kind"] not in ("point", "diff", "total", "bad"):
+                continue
+            if spec["kind"] == "point" and (
+                    spec["src"] in ("now", "noarg", "ref_none") or (
+                        spec["written"]["off"] is None
+                        and not spec.get("utc"))):
+                continue
+            if spec["kind"] == "diff" and any(
+                    p["written"]["off"] is None for p in spec["points"]) and (
+                    not spec.get("utc")):
+                continue
+            if spec["kind"] == "bad" and not spec.get("utc"):
+                continue
+            picked.append(step)
+            break
+
+    def one(step):
+        def in_process():
+            kernel.import_library()
+            world.fixed_utc_world()
+            world.set_env(world.ENV_CAL, step["env"].get("cal"))
+            world.set_env(world.ENV_REF, step["env"].get("ref"))
+            with kernel.guarded():
+                return world.run_cli(step["argv"], step.get("stdin") or "")
+        status, out, err = kernel.in_fresh_fork(in_process)
+        env = dict(os.environ, PYTHONPATH=kernel.REPO, TZ="UTC",
+                   PYTHONDONTWRITEBYTECODE="1")
+        for name, key in ((world.ENV_CAL, "cal"), (world.ENV_REF, "ref")):
+            env.pop(name, None)
+            if step["env"].get(key) is not None:
+                env[name] = step["env"][key]
+        proc = subprocess.run(
+            [sys.executable, "-m", "metomi.isodatetime.main"] + step["argv"],
+            input=step.get("stdin") or "", capture_output=True, text=True,
+            timeout=120, env=env, cwd="/")
+        if status == "ok":
+            same = proc.returncode == 0 and proc.stdout == out
+        elif status.startswith("exitmsg:"):
+            same = proc.returncode == 1 and status[8:].strip() in proc.stderr
+        elif status.startswith("exit:"):
+            same = proc.returncode == int(status[5:])
+        else:   # raise:<type>: a traceback also in the real process
+            same = proc.returncode == 1 and "Traceback" in proc.stderr
+        bad = [] if same else [{
+            "argv": step["argv"], "in_process": [status[:200], out],
+            "subprocess": [proc.returncode, proc.stdout,
+                           proc.stderr[-200:]]}]
+        return {"index": 0, "counters": {"compared": 1}, "violations": bad}
+
+    class _W(object):
+        run_job = staticmethod(one)
+    agg = kernel.run_batch(_W, picked, workers, 3600)
+    if agg.harness_errors:
+        raise kernel.HarnessError("; ".join(agg.harness_errors[:3]))
+    return {"real_subprocess_crosschecks": agg.counters.get("compared", 0),
+            "real_subprocess_mismatches": agg.violations}
